@@ -179,28 +179,29 @@ func sweepsFor(d int) int {
 	var q, th int
 	switch {
 	case d <= 10:
-		q, th = 40, 1600
+		q, th = 40, 800
 	case d <= 14:
-		q, th = 24, 800
+		q, th = 24, 400
 	case d <= 16:
-		q, th = 12, 240
+		q, th = 12, 160
 	case d <= 18:
-		q, th = 8, 120
+		q, th = 8, 80
 	case d <= 20:
-		q, th = 0, 32
+		q, th = 0, 24
 	case d <= 22:
-		q, th = 0, 16
+		q, th = 0, 12
 	case d <= 24:
-		q, th = 0, 8
+		q, th = 0, 2
 	default:
-		q, th = 0, 4
+		q, th = 0, 2
 	}
 	if !ev.Thorough() {
 		return q
 	}
+	// th sweeps in total over all shards (the expensive difficulties are not repeated by every shard)
 	n := th / ev.Shards()
-	if n < 1 {
-		n = 1
+	if (ev.Shard()+d)%ev.Shards() < th%ev.Shards() {
+		n++
 	}
 	return n
 }
@@ -787,7 +788,7 @@ func partB(t *testing.T, rec *ev.Recorder) {
 	maxD := ev.Pick(18, 20)
 	batch := workers() * 2
 	gen := genPowCase(maxD)
-	ev.RapidCheck(t, 32, 1600, func(t *rapid.T) {
+	ev.RapidCheck(t, 32, 1200, func(t *rapid.T) {
 		cs := make([]powCase, batch)
 		for i := range cs {
 			cs[i] = gen.Draw(t, fmt.Sprintf("case%d", i))
